@@ -229,6 +229,9 @@ func c18R4(c *Ctx, rule string) {
 				return cc != nil && c.P.CalleeName(cc) == "(*Raft).setLeader" && c.P.Arg(in, 0) == `""` && c.P.Arg(in, 1) == `""`
 			}),
 		}})
+		for i, ret := range engine.ReturnsOf(fn) {
+			c.RequireAt(r, rule, fmt.Sprintf("setState:always-clears-leader#%d", i+1), ret, "every call of setState forgets the advertised leader – also when the role does not change (a follower that adopts a newer term calls setState(Follower) again and must stop naming the old term's leader)", func(v engine.View) bool { return v.Seen("cleared") })
+		}
 		for _, s := range c.P.CallsIn(fn, engine.Is("(*raftState).setState")) {
 			c.RequireAt(r, rule, "setState:clears-leader-first", s.Instr, "setLeader(\"\", \"\") precedes the role change, with the role passed through unchanged", func(v engine.View) bool {
 				return v.Seen("cleared") && c.P.Arg(s.Instr, 0) == "p1"
